@@ -157,6 +157,30 @@ func runC16(cfg config) {
 				}
 				sink.add(fmt.Sprintf("(%s, %s%%string, %s), %s", coqBool(exp), "\""+n+"\"", coqZ(int64(k)), oc),
 					fmt.Sprintf("pass=%d experimental=%v  %s => %s", pass, exp, src, human), oc, key)
+				// the same call in the other syntactic positions a sub-expression is compiled in: whether it is accepted
+				// may not depend on the position
+				if pass < 2 {
+					for ci, ctx := range []string{"{} = %s", "{} and %s", "Patient.name[%s]", "iif(true, %s)", "Patient.select({} != %s)", "(%s)", "-(1) + %s"} {
+						csrc := fmt.Sprintf(ctx, src)
+						var cerr2 error
+						pn, _ := protect(func() { _, cerr2 = fhirpath.Compile(csrc, copts...) })
+						coc := oc
+						switch {
+						case pn:
+							coc = "OPanic"
+						case cerr2 != nil && errors.Is(cerr2, verifhook.ErrWrongArity):
+							coc = "ORejectedArity"
+						case cerr2 != nil && strings.Contains(cerr2.Error(), "function identifier can't be resolved"):
+							coc = "ORejectedUnresolved"
+						case cerr2 != nil:
+							coc = "ORejectedOther"
+						case !strings.HasPrefix(oc, "OAccepted"):
+							coc = "OAcceptedOk"
+						}
+						sink.add(fmt.Sprintf("(%s, %s%%string, %s), %s", coqBool(exp), "\""+n+"\"", coqZ(int64(k)), coc),
+							fmt.Sprintf("pass=%d experimental=%v  %s => %s (compile only, position %d)", pass, exp, csrc, coc, ci), coc, "")
+					}
+				}
 			}
 		}
 	}
